@@ -516,6 +516,14 @@ pub fn encode_with_fixed_block_size<T: Source>(
     crate::verif_hook::point("par.join.after", worker_count, 0);
     destruct_arc(parsink).finalize(|f: Frame| stream.add_frame(f));
 
+    // `add_frame` lowers `min_block_size` when the last block is short, but the
+    // minimum in STREAMINFO excludes the last block (and values below 16 are
+    // invalid), so restore the bounds of a fixed-block-size stream.
+    stream
+        .stream_info_mut()
+        .set_block_sizes(block_size, block_size)
+        .unwrap();
+
     stream
         .stream_info_mut()
         .set_total_samples(src_len_hint.unwrap_or_else(|| context.total_samples()));
